@@ -45,6 +45,9 @@ type RColl struct {
 	Pre      bool     `json:"pre"`      // exists downstream before the run
 	State    string   `json:"state"`    // created | dropped
 	SeekNil  bool     `json:"seek_nil"` // start without seek positions
+	// ResumeTs, when set, is the time of the seek position (a checkpoint taken before a restart: everything up to it was
+	// acknowledged downstream, the last closing tick on the collection's downstream channels was at least this)
+	ResumeTs uint64 `json:"resume_ts,omitempty"`
 	Task     string   `json:"task"`
 }
 
@@ -321,6 +324,11 @@ func GenR(rng *Rng, prop string, tier string) *RScript {
 			// a partition dropped at the source before the run, absent downstream:
 			// its old DML and its drop message are still in the stream
 			p := &RPart{ID: newID(), Name: fmt.Sprintf("pd%d", ci), CreateTs: nextTs(false), State: "dropped"}
+			if prop == "C04" && c.Pre && rng.Pct(50) {
+				// ... but still present downstream: it was dropped at the source while the service was not running
+				p.PreTarget = true
+				p.TgtID = newTgtID()
+			}
 			c.Parts = append(c.Parts, p)
 			l.prePart = append(l.prePart, p)
 			l.liveP[p.ID] = true // DML is generated until the drop entry below
@@ -501,6 +509,23 @@ func GenR(rng *Rng, prop string, tier string) *RScript {
 	}
 	if rng.Pct(15) {
 		s.Faults["reg_err"] = 1
+	}
+	if prop == "C03" {
+		// resumed collections: the checkpoint is a tick somewhere in the first half of the history
+		for _, c := range s.Colls {
+			if c.SeekNil || len(c.SrcV) == 0 || !rng.Pct(50) {
+				continue
+			}
+			var ticks []uint64
+			for _, e := range s.Log[physOf(c.SrcV[0])] {
+				if e.Kind == "tick" && e.Ts > c.CreateTs {
+					ticks = append(ticks, e.Ts)
+				}
+			}
+			if len(ticks) >= 4 {
+				c.ResumeTs = ticks[rng.Range(0, len(ticks)/2)]
+			}
+		}
 	}
 	return s
 }
